@@ -49,6 +49,9 @@ func TestRemoteUseCaseSnapshots(t *testing.T) {
 				}
 				addr := p.FA(ea, 0)
 				info := model.UseCaseInformationDataType{Address: &model.FeatureAddressType{Device: addr.Device, Entity: addr.Entity}, Actor: util.Ptr(actor)}
+				if rapid.IntRange(0, 2).Draw(t, fmt.Sprintf("%s.withoutDevice%d", label, i)) == 0 {
+					info.Address.Device = nil // the device part of the address is optional
+				}
 				m := rapid.IntRange(1, 2).Draw(t, fmt.Sprintf("%s.usecases%d", label, i))
 				for j := 0; j < m; j++ {
 					info.UseCaseSupport = append(info.UseCaseSupport, model.UseCaseSupportType{
